@@ -1,6 +1,6 @@
 (* Correspondence stream for C12: the implementation's observations, replayed on the model. *)
 From Coq Require Import List NArith ZArith Bool.
-From Verif Require Import Lib.Bytes Lib.Assoc Lib.Sorting Model.Powermap.
+From Verif Require Import Lib.Bytes Lib.Assoc Lib.Sorting Model.Powermap Model.App Corr.App.
 Import ListNotations.
 
 Fixpoint kvlist_eqb (a b : list (bytes * Z)) : bool :=
@@ -12,12 +12,15 @@ Fixpoint kvlist_eqb (a b : list (bytes * Z)) : bool :=
 
 Inductive case :=
   (* DiffPowermaps(old,new).ValidatorUpdates() observed as [obs] *)
-| CDiff (id : N) (oldpm newpm : list (bytes * Z)) (obs : list (bytes * Z)).
+| CDiff (id : N) (oldpm newpm : list (bytes * Z)) (obs : list (bytes * Z))
+  (* an ABCI history on the real application (responses incl. validator updates, final state) *)
+| CHist (a : app_case).
 
 Definition check_case (c : case) : list N :=
   match c with
   | CDiff id o n obs =>
       if kvlist_eqb (validator_updates (diff_powermaps o n)) obs then [] else [id]
+  | CHist a => check_app_case a
   end.
 
 Definition mismatches (cs : list case) : list N := flat_map check_case cs.
